@@ -1,6 +1,6 @@
 (** Go's UTF-8 decoding and strconv.QuoteToASCII (the %+q verb), as used by every diagnostic and by exporter.Export. *)
 From GV Require Import Base.Str.
-Open Scope N_scope.
+Local Open Scope N_scope.
 
 Definition inr_ (lo hi : N) (c : ascii) : bool := N.leb lo (code c) && N.leb (code c) hi.
 Definition cont (c : ascii) : bool := inr_ 128 191 c.
